@@ -8,7 +8,9 @@ MC   : IoFileMC.tla - the sparse oracle IoFile is checked by TLC against the
 Bind : GEN -> replay.  Histories WITH the expected result of every operation
        come from TLC: (1) one history per transition of IoFileMC's state
        graph for constant slices (open modes, read/write/seek around the
-       4096-byte buffer, line layouts, numerals; thorough: all constants),
+       4096-byte buffer, line layouts, numerals, kept lines() iterators
+       called later / after close, seek call forms with buffered writers;
+       thorough: all constants),
        (2) seeded random operation proposals evaluated by IoFileEval.tla
        (illegal operations dropped by the spec's Legal).  The Go driver
        performs them on the real io library and reports every disagreement.
@@ -18,7 +20,8 @@ import vlib
 
 PROP = "C19"
 
-READS = ("read", "readline", "readall", "readnum", "lines")
+READS = ("read", "readline", "readall", "readnum", "lines", "calliter")
+SEEKS = ("seek", "seek0", "seek1")
 
 # ---------------------------------------------------------------------------
 # case keys (naming only; the verdict is the driver's byte comparison against
@@ -45,10 +48,12 @@ def case_key(h, bad):
             return "C19:closed:mode-guard-before-closed-guard"
         if op == "lines" and gk in ("iterator", "none"):
             return "C19:closed:lines:no-error-at-call"
-        if op == "seek":
+        if op in SEEKS:
             return "C19:closed:seek:returns-%s-instead-of-raising" % ("nil" if gk == "fail" else gk)
         if op == "setvbuf":
             return "C19:closed:setvbuf:no-error"
+        if op == "calliter":
+            return "C19:closed:kept-lines-iterator:returns-%s-instead-of-raising" % gk
         return "C19:closed:%s:%s" % (op, gk)
     if step is not None:
         if step["op"] == "setvbuf" and step["a"] == "line" and gk == "error":
@@ -58,7 +63,7 @@ def case_key(h, bad):
             lens = [sum(d[3] for d in e[1]) for e in step["exp"][1][:bad.get("line", 0)] if e[0] == "data"]
             if any(l >= 4096 for l in lens):
                 return "C19:lines:line>=4096-split"
-        if step["op"] in ("readline", "lines") and rel == "trailing-CR-dropped":
+        if step["op"] in ("readline", "lines", "calliter") and rel == "trailing-CR-dropped":
             return "C19:line-read:CR-before-LF-stripped"
         if step["op"] == "readnum" and gk == "fail" and "unexpected newline" in bad["got"].get("msg", "") \
                 and not _triggers(steps[:at]):
@@ -81,13 +86,15 @@ def _triggers(steps):
         if op == "open" and s["exp"][0] == "ok":
             ra = False
             continue
-        if pre["closed"] or op in ("open", "peek"):
+        if pre["closed"] or op in ("open", "peek", "getiter") or (op == "calliter" and s["exp"][0] == "error"):
             continue
         if op in READS and s["exp"][0] in ("data", "lines", "eof", "num"):
             ra = True
             if op == "lines" and any(e[0] == "data" and sum(d[3] for d in e[1]) >= 4096 for e in s["exp"][1]):
                 return "C19:lines:line>=4096-split"     # even when the pieces happen to compare equal
-        elif op == "seek":
+            if op == "calliter" and s["exp"][0] == "data" and sum(d[3] for d in s["exp"][1]) >= 4096:
+                return "C19:lines:line>=4096-split"
+        elif op in SEEKS:
             if pre["pend"]:
                 return "C19:seek:buffered-writes-not-flushed"
             if s["exp"][0] == "num":
@@ -128,6 +135,7 @@ def replay_histories(hists, tag, verd, stats):
         for s in h["steps"]:
             k = s["op"] + ("@closed" if s["pre"]["closed"] and s["op"] not in ("open", "peek") else "")
             stats["byop"][k] = stats["byop"].get(k, 0) + 1
+            stats["bytag"].setdefault(tag, set()).add(k)
         for bad in r.get("bad", []):
             key = case_key(h, bad)
             nbad += 1
@@ -157,7 +165,8 @@ def render_lua(h, upto):
         c = {"open": 'f = io.open(path, "%s")' % a, "peek": 'io.open(path, "r"):read("*a")',
              "read": "f:read(%d)" % n, "readline": 'f:read("*l")', "readall": 'f:read("*a")', "readnum": 'f:read("*n")',
              "lines": "it = f:lines() -- called %d times" % n, "write": "f:write(payload(%d, %d))" % (s["tag"], n),
-             "seek": 'f:seek("%s", %d)' % (a, n), "flush": "f:flush()", "setvbuf": 'f:setvbuf("%s")' % a,
+             "seek": 'f:seek("%s", %d)' % (a, n), "seek0": "f:seek()", "seek1": 'f:seek("%s")' % a,
+             "getiter": "it = f:lines()  -- kept", "calliter": "it()", "flush": "f:flush()", "setvbuf": 'f:setvbuf("%s")' % a,
              "close": "f:close()"}[op]
         out.append("%s  --> %s" % (c, json.dumps(s["exp"])[:120]))
     return out
@@ -200,10 +209,15 @@ def rand_ops(rng, n):
             ops.append(op("readline"))
         elif r < 0.28:
             ops.append(op("readall"))
+        elif r < 0.30:
+            ops.append(op("getiter"))
         elif r < 0.34:
             ops.append(op("lines", "", rng.choice([1, 2, 3, 5])))
         elif r < 0.52:
             ops.append(op("write", "", cnt))
+        elif r < 0.60:
+            q = rng.random()       # the call forms with defaulted arguments
+            ops.append(op("seek0") if q < 0.5 else op("seek1", rng.choice(["set", "cur", "end"])))
         elif r < 0.74:
             off = rng.choice(OFFS) if rng.random() < 0.8 else rng.randint(-9000, 9000)
             ops.append(op("seek", rng.choice(["set", "cur", "end"]), off))
@@ -212,7 +226,7 @@ def rand_ops(rng, n):
         elif r < 0.88:
             ops.append(op("setvbuf", rng.choice(["no", "full", "full", "line"])))
         elif r < 0.93:
-            ops.append(op("peek"))
+            ops.append(op("peek") if rng.random() < 0.5 else op("calliter"))
         elif r < 0.97:
             ops.append(op("close"))
         else:
@@ -245,7 +259,7 @@ def gen_random(rng, n, maxops, stats, tag):
 
 def new_stats():
     return {"states": 0, "transitions": 0, "histories": 0, "ops": 0, "ops_compared": 0, "maxlen": 0, "byop": {},
-            "evaluations": 0, "proposed_ops": 0, "legal_ops": 0, "finals_compared": 0}
+            "evaluations": 0, "proposed_ops": 0, "legal_ops": 0, "finals_compared": 0, "bytag": {}}
 
 
 def run(tier):
@@ -255,7 +269,7 @@ def run(tier):
     vlib.build_harness()
     thorough = tier == "thorough"
     slices = [("IoFileGen_modes", 4, "modes"), ("IoFileGen_rw", 4 if thorough else 3, "rw"), ("IoFileGen_lines", 4, "lines"),
-              ("IoFileGen_num", 4, "num")]
+              ("IoFileGen_num", 4, "num"), ("IoFileGen_iter", 6, "iter"), ("IoFileGen_buf", 5, "buf")]
     if thorough:
         slices.append(("IoFileGen_all", 3, "all"))
     from concurrent.futures import ThreadPoolExecutor
@@ -300,9 +314,14 @@ def run(tier):
             distinct.add(vlib.canon_hash([h["init"], [(s["op"], s["a"], s["n"]) for s in h["steps"]]]))
     samples.append({"source": "rnd", "lua": render_lua(hs[0], 0)})
     # vacuity: every kind of operation, on open and on closed handles, was replayed
-    need = ["open", "peek", "read", "readline", "readall", "readnum", "lines", "write", "seek", "flush", "setvbuf", "close"]
+    need = ["open", "peek", "read", "readline", "readall", "readnum", "lines", "write", "seek", "flush", "setvbuf", "close",
+            "seek0", "seek1", "getiter", "calliter"]
     need += [k + "@closed" for k in need[2:]]
     missing = [k for k in need if not stats["byop"].get(k)]
+    # the dedicated slices reach what they were made for
+    for tag, ks in (("buf", ["setvbuf", "write", "seek0", "seek1", "peek"]),
+                    ("iter", ["getiter", "calliter", "calliter@closed", "readline", "seek0"])):
+        missing += ["%s:%s" % (tag, k) for k in ks if k not in stats["bytag"].get(tag, ())]
     if missing:
         raise vlib.Infra("generated histories never exercised: %s" % missing)
     rc = verd.finish()
@@ -316,7 +335,7 @@ def run(tier):
         "random_proposed_ops": stats["proposed_ops"], "random_legal_ops": stats["legal_ops"],
         "distinct_nontrivial": len(distinct),
         "rule": "histories = one per transition of IoFileMC's state graph (BFS, one per (state, depth), single worker) for the constant slices "
-                "modes/rw/lines/num%s, plus seeded random proposals filtered by Legal; distinct by canonical hash of "
+                "modes/rw/lines/num/iter/buf%s, plus seeded random proposals filtered by Legal; distinct by canonical hash of "
                 "(initial size, layout, operation list); non-trivial = at least 3 operations" % ("/all" if thorough else ""),
         "samples": samples, "mc_runs": mc, "exhaustive": False,
         "rejected_case_keys": dict(sorted(verd.nviol.items())),
